@@ -8,7 +8,8 @@ then one run per failure point.  After each run, whichever way the call ended:
       was created ("closed as soon as its content has been read"),
   (4) the same scenario run fault-free right afterwards (same schema object /
       same SchemaLoader) has the baseline outcome,
-  (5) no ResourceWarning was emitted.
+  (5) no ResourceWarning was emitted,
+  (6) the stream handed to load*File as the top resource is closed.
 """
 
 import io
@@ -45,8 +46,9 @@ ASSUMPTIONS = [
     "a failure is an exception raised at a seam call (open, read, readline, "
     "get_data, import, callback) or by ZConfig itself on corrupted text; "
     "asynchronous exceptions between arbitrary bytecodes are not modelled",
-    "the file object a caller passes to load*File is not required to be "
-    "closed; the Resource wrapped around it is",
+    "the stream a caller passes to load*File is the top resource: it is "
+    "closed when the call ends (Resource.close is documented to close the "
+    "file it was given)",
     "clause (4) compares outcomes of the rerun, not the schema description "
     "(that part belongs to C12/C13)",
 ]
@@ -127,6 +129,14 @@ class Ctx:
         w.store = store
         w.begin_op(name, faults)
         top, entry = p["top"], p["entry"]
+        passed = []          # file objects handed to load*File by the "caller"
+
+        def fobj(binary=False):
+            text = store.get(top, "")
+            f = io.BytesIO(text.encode("utf-8")) if binary \
+                else io.StringIO(text)
+            passed.append(f)
+            return f
         if p["kind"] == "config" and self.loader is not None:
             loader = self.loader
             if name == "wrapper":
@@ -136,8 +146,7 @@ class Ctx:
             elif entry == "path":
                 fn = lambda: loader.loadURL(_path_of(top))          # noqa
             else:
-                fn = lambda: loader.loadFile(                       # noqa
-                    io.StringIO(store.get(top, "")), top)
+                fn = lambda: loader.loadFile(fobj(), top)           # noqa
             o = ops.config_outcome(fn)
         elif p["kind"] == "config":
             schema = self.schema
@@ -147,7 +156,7 @@ class Ctx:
                 fn = lambda: ZConfig.loadConfig(schema, _path_of(top))  # noqa
             else:
                 fn = lambda: ZConfig.loadConfigFile(                # noqa
-                    schema, io.StringIO(store.get(top, "")), top)
+                    schema, fobj(), top)
             o = ops.config_outcome(fn)
         else:
             loader = self.loader
@@ -156,11 +165,20 @@ class Ctx:
             elif entry == "path":
                 fn = lambda: loader.loadURL(_path_of(top))          # noqa
             else:
+                # a schema may be handed over as a binary stream (the XML
+                # reader decodes it); half of the scenarios do
                 fn = lambda: loader.loadFile(                       # noqa
-                    io.StringIO(store.get(top, "")), top)
+                    fobj(binary=p.get("rot", 0) % 2 == 1), top)
             o = ops.schema_outcome(fn)
             o.pop("schema", None)
         problems = []
+        for f in passed:
+            # the top resource IS this stream: closing the Resource built
+            # around it closes it
+            if not f.closed:
+                problems.append(("top-stream-open",
+                                 "the stream handed to load*File as the top "
+                                 "resource %s is still open" % top))
         for i, url in w.unclosed_resources():
             problems.append(("resource-open", "resource #%d %s not closed"
                              % (i, url)))
